@@ -21,6 +21,8 @@
 #include <polynomial.h>
 #include <polynomial_vector.h>
 
+#include "polynomial/polynomial.h"
+
 #include <stdlib.h>
 #include <string.h>
 #include <assert.h>
@@ -218,6 +220,9 @@ int lp_polynomial_hash_set_insert_move(lp_polynomial_hash_set_t* set, lp_polynom
   assert(p);
   assert(set->data_size > set->size);
   assert(!set->closed);
+
+  // The stored polynomial is not external: take it in the current variable order
+  lp_polynomial_external_clean(p);
 
   int result = lp_polynomial_hash_set_insert_swap(set->data, set->data_size-1, p);
   if (result) {
